@@ -2,7 +2,7 @@
 import ast
 
 from ..model import AnalysisError, Model, walk_no_nested, norm_stmt, names_in
-from .. import flow, sem
+from .. import excmap, flow, sem
 
 EXPLANATION = (
     'Decided: (R1) the length probe (decode_full_length -> skip_tag_length_contents) and every BER/DER decoder obtain lengths '
@@ -229,17 +229,10 @@ def check(ctx):
     for fn in ('skip_tag', 'decode_length'):
         f = model.func(BER, fn)
         buf = flow.param_names(f)[0]
-        for n in walk_no_nested(f):
-            if isinstance(n, ast.Subscript) and isinstance(n.value, ast.Name) and n.value.id == buf and not isinstance(n.slice, ast.Slice):
-                ok = False
-                for t in flow.enclosing_try_handlers(n, stop=f):
-                    for h in t.handlers:
-                        if flow.handler_catches(h, ('IndexError', 'Exception', 'LookupError')) and \
-                                any(isinstance(r, ast.Raise) and 'OutOfByteDataError' in ast.unparse(r) for r in ast.walk(h)):
-                            ok = True
-                ctx.instance('C15.R3', '%s %s' % (Model.qual(f), ast.unparse(n)), 'IndexError mapped' if ok else 'VIOLATION', node=n, file=BER)
-                if not ok:
-                    ctx.violation('C15.R3', BER, n, Model.qual(f), 'buffer index %s can raise IndexError to the caller of decode_length()/decode_full_length()' % ast.unparse(n))
+        for g, n, ok in excmap.index_sites(f, buf):
+            ctx.instance('C15.R3', '%s %s' % (Model.qual(g), ast.unparse(n)), 'IndexError mapped' if ok else 'VIOLATION', node=n, file=BER)
+            if not ok:
+                ctx.violation('C15.R3', BER, n, Model.qual(g), 'buffer index %s can raise IndexError to the caller of decode_length()/decode_full_length()' % ast.unparse(n))
     # skip_tag: a tag that ends exactly at the end of data is "not yet known": every returning path has established  returned offset < len(data)
     sps = sem.paths(skt, positional=True)
     ok = sps is not None
